@@ -185,6 +185,9 @@ func runUnit(fs *flag.FlagSet, prop string, seed uint64, n int, outDir, file str
 	if fn == "crossings" {
 		return runCrossUnit(seed, n, outDir)
 	}
+	if strings.HasPrefix(fn, "pos-") {
+		return runPosUnit(strings.TrimPrefix(fn, "pos-"), seed, n, outDir)
+	}
 	code := map[string]int{"vbalance": 1, "normalize": 2, "ns": 3, "p1greedy": 4, "p1dfs": 5}[fn]
 	if code == 0 {
 		fmt.Fprintln(os.Stderr, "unknown unit function", fn)
